@@ -180,7 +180,7 @@ pub fn never_used_peer() -> SocketAddr {
 /// key, but equal under any comparison of the concatenated or hashed-together fields), 4 a
 /// short-term twin of key 0 under case folding
 pub fn creds_k(k: u8) -> Creds {
-    match k % 5 {
+    match k % 8 {
         0 => Creds::Short { password: "remote-A".into() },
         1 => Creds::Long {
             user: "bob".into(),
@@ -193,13 +193,20 @@ pub fn creds_k(k: u8) -> Creds {
             realm: "bexample.org".into(),
             password: "remote-B".into(),
         },
-        _ => Creds::Short { password: "remote-a".into() },
+        4 => Creds::Short { password: "remote-a".into() },
+        // short-term passwords longer than one hash block (HMAC hashes such keys down first): 5 and 6
+        // agree on the first 64 bytes and differ after them, 7 is exactly those 64 bytes
+        5 => Creds::Short { password: format!("{}-tail-one", LONG_PW_64) },
+        6 => Creds::Short { password: format!("{}-other-tail", LONG_PW_64) },
+        _ => Creds::Short { password: LONG_PW_64.into() },
     }
 }
 
+const LONG_PW_64: &str = "0123456789abcdef0123456789ABCDEF0123456789abcdef0123456789ABCDEF";
+
 /// the keys that `SetRemoteCreds(k)` configures: 0, 1, and their twins 3, 4 (never key 2)
 pub fn remote_key_index(k: u8) -> u8 {
-    [0u8, 1, 3, 4][(k % 4) as usize]
+    [0u8, 1, 3, 4, 5, 6, 7, 0][(k % 8) as usize]
 }
 
 fn local_seal_creds() -> Creds {
@@ -1819,7 +1826,7 @@ fn adv_strategy() -> BoxedStrategy<Adv> {
 fn auth_strategy() -> BoxedStrategy<Auth> {
     prop_oneof![
         2 => Just(Auth::Unsigned),
-        5 => (prop_oneof![4 => 0u8..3, 1 => 3u8..5], 0u8..3).prop_map(|(key, algo)| Auth::Signed { key, algo }),
+        5 => (prop_oneof![8 => 0u8..3, 2 => 3u8..5, 1 => 5u8..8], 0u8..3).prop_map(|(key, algo)| Auth::Signed { key, algo }),
         2 => (0u8..2, 0u8..3).prop_map(|(key, algo)| Auth::Corrupted { key, algo }),
         2 => (0u8..2, 0u8..2, prop_oneof![Just(0u8), Just(4), Just(12), Just(16), Just(19), Just(20), Just(21), Just(24), Just(28), Just(32), Just(33), Just(36), 0u8..=44])
             .prop_map(|(key, algo, len)| Auth::OddLength { key, algo, len }),
@@ -1897,7 +1904,7 @@ pub fn op_strategy(p: Profile) -> BoxedStrategy<Op> {
         retransmits,
         last_ms,
     });
-    let set_creds = prop_oneof![3 => prop_oneof![3 => 0u8..2, 1 => 2u8..4].prop_map(Op::SetRemoteCreds), 1 => (0u8..3).prop_map(Op::SetLocalCreds)];
+    let set_creds = prop_oneof![3 => prop_oneof![9 => 0u8..2, 3 => 2u8..4, 1 => 4u8..7].prop_map(Op::SetRemoteCreds), 1 => (0u8..3).prop_map(Op::SetLocalCreds)];
     let poll_via = id().prop_map(|holder| Op::PollVia { holder });
     let advance = adv_strategy().prop_map(Op::Advance);
     match p {
@@ -1930,6 +1937,166 @@ pub fn history_strategy(p: Profile, max_ops: usize) -> BoxedStrategy<History> {
     (prop_oneof![3 => Just(false), 1 => Just(true)], vec(op_strategy(p), 0..=max_ops), prop_oneof![3 => Just(0u8), 1 => 1u8..=N_PEERS], prop_oneof![5 => Just(0u8), 1 => 1u8..4], prop_oneof![3 => Just(0u8), 1 => Just(0x40u8)], 0u8..8)
         .prop_map(|(tcp, ops, remote, local, past, tick)| History { tcp, ops, remote: remote | (local << 4) | past, tick })
         .boxed()
+}
+
+
+// ---------------------------------------------------------------------------------------------
+// model-free life-cycle oracle (C05), for histories on which the lock-step model was stopped by a
+// discrepancy that another property states (a timing or payload difference): whatever else is wrong,
+// every accepted request must still end exactly once. Nothing here predicts instants or payloads.
+
+/// Executes `h` (every poll a drain) and keeps only the set of live transactions as the agent's own
+/// replies define it: a request accepted by `send` is live until it is delivered, reported timed out
+/// or reported cancelled. Violations: an event or transmission for a transaction that is not live, a
+/// second accepted send of a live id, `request_transaction` disagreeing with the set, and, after
+/// the history, a transaction that does not end although every wake-up the agent names is followed
+/// (far more polls than any configured schedule has events).
+pub fn lifecycle_plain(h: &History, origin: Instant) -> Result<(), (String, String)> {
+    let k = ticks_per_ms(h.tick);
+    let tick_ns = 1_000_000 / k;
+    let at = |ticks: u64| origin + Duration::from_nanos(ticks * tick_ns);
+    let transport = if h.tcp { TransportType::Tcp } else { TransportType::Udp };
+    let mut agent = build_agent(transport, h.remote);
+    let mut live: BTreeSet<u128> = BTreeSet::new();
+    let mut now = 0u64;
+    let mut last_wait: Option<u64> = None;
+    let mut budget_ops = 0usize;
+    let fail = |sig: &str, step: usize, msg: String| Err((sig.to_string(), format!("step {}: {} (life-cycle judged from the agent's own replies, no timing model)", step, msg)));
+    // one drain; returns Err on a life-cycle violation
+    fn drain(agent: &mut StunAgent, live: &mut BTreeSet<u128>, t: Instant, step: usize, cap: usize) -> Result<Option<Instant>, (String, String)> {
+        for _ in 0..cap {
+            match agent.poll(t) {
+                StunAgentPollRet::WaitUntil(w) => return Ok(Some(w)),
+                StunAgentPollRet::SendData(tr) => {
+                    let d = tr.data();
+                    if d.len() >= 20 {
+                        let mut b = [0u8; 16];
+                        b[4..].copy_from_slice(&d[8..20]);
+                        let id = u128::from_be_bytes(b);
+                        if !live.contains(&id) && (0..N_IDS).map(pool_id).any(|p| p == id) {
+                            return Err(("c05-transmit-after-completion".into(), format!("step {}: poll hands out a transmission for {:#x}, which is not outstanding (ended or never accepted)", step, id)));
+                        }
+                    }
+                }
+                StunAgentPollRet::TransactionTimedOut(id) | StunAgentPollRet::TransactionCancelled(id) => {
+                    let id: u128 = id.into();
+                    if !live.remove(&id) {
+                        return Err(("c05-double-completion".into(), format!("step {}: poll reports the end of {:#x}, which is not outstanding (it ended before or was never accepted)", step, id)));
+                    }
+                }
+            }
+        }
+        Ok(None)
+    }
+    for (step, op) in h.ops.iter().enumerate() {
+        match op {
+            Op::Send { id, class, seal, dest, payload } => {
+                budget_ops += 1;
+                let tid = pool_id(*id);
+                let ok = with_request(tid, *class, *seal, *payload, |b, _| agent.send(b, peer(*dest), at(now)).is_ok());
+                if class % 4 == 0 && ok {
+                    if !live.insert(tid) {
+                        return fail("c05-duplicate-send", step, format!("a second request with the outstanding id {:#x} was accepted", tid));
+                    }
+                }
+            }
+            Op::SendConfigured { id, seal, dest, payload, rto_ms, retransmits, last_ms } => {
+                budget_ops += 1;
+                let tid = pool_id(*id);
+                let ok = with_request(tid, 0, *seal, *payload, |b, _| agent.send(b, peer(*dest), at(now)).is_ok());
+                if ok {
+                    if !live.insert(tid) {
+                        return fail("c05-duplicate-send", step, format!("a second request with the outstanding id {:#x} was accepted", tid));
+                    }
+                    if let Some(mut r) = agent.mut_request_transaction(TransactionId::from(tid)) {
+                        r.configure_timeout(Duration::from_millis(*rto_ms as u64), *retransmits as u32, Duration::from_millis(*last_ms as u64));
+                    }
+                }
+            }
+            Op::Advance(a) => {
+                let wake = last_wait.filter(|w| *w > now);
+                now = match a {
+                    Adv::Zero => now,
+                    Adv::Ms(d) => now + *d as u64,
+                    Adv::ToWakeMinus(d) => wake.map(|w| w.saturating_sub(*d as u64 + 1).max(now)).unwrap_or(now + *d as u64),
+                    Adv::ToWake => wake.unwrap_or(now + 500 * k),
+                    Adv::ToWakePlus(d) => wake.map(|w| w + *d as u64).unwrap_or(now + *d as u64),
+                    Adv::Far => now + 120_000 * k,
+                };
+            }
+            Op::Poll | Op::Drain | Op::PollVia { .. } => match drain(&mut agent, &mut live, at(now), step, 64)? {
+                Some(w) => last_wait = w.checked_duration_since(origin).map(|d| (d.as_nanos() / tick_ns as u128) as u64),
+                None => return fail("c05-endless-events", step, "64 polls at one instant all produced events".into()),
+            },
+            Op::Response { id, error, auth, from, fp, content } => {
+                let bytes = response_bytes(pool_id(*id), *error, *auth, *fp, *content);
+                if let Ok(m) = Message::from_bytes(&bytes) {
+                    if let HandleStunReply::StunResponse(m) = agent.handle_stun(m, peer(*from)) {
+                        let id: u128 = m.transaction_id().into();
+                        if !live.remove(&id) {
+                            return fail("c05-delivered-not-outstanding", step, format!("a response for {:#x} was delivered although that transaction is not outstanding", id));
+                        }
+                    }
+                }
+            }
+            Op::Incoming { id, indication, from } => {
+                let bytes = incoming_bytes(pool_id(*id), *indication);
+                if let Ok(m) = Message::from_bytes(&bytes) {
+                    let _ = agent.handle_stun(m, peer(*from));
+                }
+            }
+            Op::Cancel { id } => {
+                if let Some(mut r) = agent.mut_request_transaction(TransactionId::from(pool_id(*id))) {
+                    r.cancel();
+                }
+            }
+            Op::CancelRetransmissions { id } => {
+                if let Some(mut r) = agent.mut_request_transaction(TransactionId::from(pool_id(*id))) {
+                    r.cancel_retransmissions();
+                }
+            }
+            Op::Configure { id, rto_ms, retransmits, last_ms } => {
+                budget_ops += 1;
+                if let Some(mut r) = agent.mut_request_transaction(TransactionId::from(pool_id(*id))) {
+                    r.configure_timeout(Duration::from_millis(*rto_ms as u64), *retransmits as u32, Duration::from_millis(*last_ms as u64));
+                }
+            }
+            Op::SetRemoteCreds(c) => agent.set_remote_credentials(creds_k(remote_key_index(*c)).to_lib()),
+            Op::SetLocalCreds(c) => agent.set_local_credentials(creds_k(*c % 3).to_lib()),
+        }
+        for id in (0..N_IDS).map(pool_id) {
+            let has = agent.request_transaction(TransactionId::from(id)).is_some();
+            if has != live.contains(&id) {
+                return fail(
+                    if has { "c05-still-outstanding" } else { "c05-lost" },
+                    step,
+                    format!("request_transaction({:#x}) is {} but by the agent's own replies the transaction is {}", id, if has { "Some" } else { "None" }, if has { "not outstanding" } else { "outstanding" }),
+                );
+            }
+        }
+    }
+    // follow every wake-up the agent names: all live transactions must end
+    let budget = 40 + 24 * budget_ops;
+    for _ in 0..budget {
+        if live.is_empty() {
+            return Ok(());
+        }
+        match drain(&mut agent, &mut live, at(now), h.ops.len(), 64)? {
+            Some(w) => {
+                let t = w.checked_duration_since(origin).map(|d| (d.as_nanos() / tick_ns as u128) as u64).unwrap_or(0);
+                now = if t > now { t } else { now + 1 };
+            }
+            None => return fail("c05-endless-events", h.ops.len(), "64 polls at one instant all produced events".into()),
+        }
+    }
+    if live.is_empty() {
+        return Ok(());
+    }
+    fail(
+        "c05-never-completes",
+        h.ops.len(),
+        format!("transactions {:x?} are still outstanding after {} rounds of polling at every wake-up instant the agent named: they never end", live.iter().collect::<Vec<_>>(), budget),
+    )
 }
 
 // ---------------------------------------------------------------------------------------------
